@@ -56,6 +56,9 @@ def check_reader(cfg, w, rep, lf):
                           loc=gb.loc(), config=cfg, rule="a-trust-gate")
         else:
             _trust_gate(cfg, w, rep, lf, gb, pay_g, somes, gb.loc(), "hand back a payload", via=g)
+    # ---- (b0) the line stream is the bucket file's own lines, not adapted by anything that could end or filter it ----
+    _line_source(cfg, w, rep, lf)
+
     # ---- (b) skip and continue ----
     loops = [(h, bl) for h, bl in cf.loops() if fblk.i in bl]
     if not loops:
@@ -281,3 +284,59 @@ def _trust_gate(cfg, w, rep, lf, body, payload, targets, loc, what, via=None):
     else:
         rep.violation("a-separator:%s" % key, "bucket reader %s splits fields on %r instead of TAB" % (where, sep),
                       loc=loc, config=cfg, rule="a-trust-gate")
+
+
+LINES = re.compile(r"(^std::io::BufRead::lines|AsyncBufReadExt::lines)$")
+BUFREADER = re.compile(r"(^|::)io::BufReader::<R>::new$")
+FILE_OPEN = re.compile(r"(^|::)fs::File::open$")
+# stream wrappers that yield every item of the wrapped line reader, errors included, and go on after an error
+FAITHFUL_WRAPPERS = ("tokio_stream::wrappers::LinesStream::<R>::new",)
+
+
+def _line_source(cfg, w, rep, lf):
+    """The receiver of the reader's next() is lines(BufReader::new(File::open(<path parameter>))), seen through at most a
+    crate-local runtime adapter whose whole body is the identity or a faithful wrapper. Any other adaptor (map_while,
+    take_while, try_unfold, scan, filter ...) may end the stream at the first bad line or drop lines silently."""
+    prog = w.prog
+    key = fn_key(lf)
+    nexts = [(b, blk, t) for b, blk, t in prog.call_sites(lf) if t.callee is not None and NEXT.search(t.callee.path) and b is lf.body]
+    if len(nexts) != 1:
+        rep.violation("b-source:%s" % key, "UNRECOGNISED-IDIOM: bucket reader `%s` pulls lines at %d sites (expected one)" % (short(lf.path), len(nexts)),
+                      loc=lf.body.loc(), config=cfg, rule="b-line-source")
+        return
+    b, blk, t = nexts[0]
+    term = w.sym.of_operand(b, t.args[0])
+    seen = []
+    cur = term
+    for _ in range(4):
+        if cur[0] != "call":
+            break
+        g = prog.fns.get(cur[1])
+        if g is not None and len(cur[2]) == 1:
+            # crate-local adapter: its return value must be its argument, or a faithful wrapper of it
+            rt = w.sym.of_place(g.body, 0, ())
+            arg0 = ("param", g.path, 0, ())
+            ok = rt == arg0 or (rt[0] == "call" and rt[1] in FAITHFUL_WRAPPERS and tuple(rt[2]) == (arg0,) and not rt[3])
+            if not ok:
+                rep.violation("b-source:%s" % key,
+                              "bucket reader `%s` reads its lines through `%s`, which is %s — not the identity or a wrapper known to yield every "
+                              "line and to continue after an undecodable one: the stream may end at the first bad line" % (
+                                  short(lf.path), short(g.path), term_str(rt)[:120]), loc=g.body.loc(), config=cfg, rule="b-line-source")
+                return
+            seen.append(short(g.path))
+            cur = cur[2][0]
+            continue
+        break
+    ok = (cur[0] == "call" and LINES.search(cur[1]) and not cur[3] and len(cur[2]) == 1 and
+          cur[2][0][0] == "call" and BUFREADER.search(cur[2][0][1]) and len(cur[2][0][2]) == 1)
+    if ok:
+        f = cur[2][0][2][0]
+        ok = f[0] == "call" and FILE_OPEN.search(f[1]) and len(f[2]) == 1 and f[2][0] == ("param", lf.path, 0, ())
+    if ok:
+        rep.ob(cfg, "b-line-source", key, "`%s` iterates lines(BufReader::new(File::open(<its path>)))%s with no adaptor in between" % (
+            short(lf.path), " through the runtime adapter " + ", ".join(seen) if seen else ""))
+    else:
+        rep.violation("b-source:%s" % key,
+                      "bucket reader `%s` does not iterate the plain lines of its bucket file: %s — an adaptor between the file and the loop "
+                      "can end the stream early or drop lines" % (short(lf.path), term_str(term)[:160]), loc=span_str(t.span), config=cfg,
+                      rule="b-line-source")
